@@ -38,14 +38,14 @@ class LUW(dict):
 
 
 BSK = ['bv_to_sparse', 'sparse_to_bv', 'bv_sparse_bv', 'sparse_bv_sparse']
-for (l, m, tier) in ((8, 2, 'quick'), (8, 0, 'thorough'), (8, 8, 'thorough'), (16, 3, 'thorough'), (65, 2, 'thorough')):
+for (l, m, tier) in ((8, 2, 'quick'), (8, 0, 'thorough'), (8, 8, 'deep'), (16, 3, 'deep'), (65, 2, 'deep')):
     for kind, kn in enumerate(BSK):
         inst(P, 'c11_%s_l%d_m%d' % (kn, l, m), CC('bv_sparse', l, m, kind), tier=tier, unwind=10, stubs=SPARSE + ONES, cap=1200, cap_thorough=3600, mem=12, weight=m + 1,
              desc='%s: %d-bit vector with %d symbolic set positions; converted structure == the one built directly by the target builder, same bits' % (kn, l, m),
              shape={'len': l, 'ones': m, 'conversion': kn}).unwindset = LUW(l, m, {})
 
 RLK = ['rl_bits_vs_runs', 'bv_to_rl', 'rl_to_bv', 'sparse_to_rl', 'rl_to_sparse']
-for (l, m, tier) in ((7, 2, 'thorough'), (7, 3, 'thorough'), (7, 0, 'thorough')):
+for (l, m, tier) in ((7, 2, 'deep'), (7, 3, 'deep'), (7, 0, 'deep')):
     for kind, kn in enumerate(RLK):
         inst(P, 'c11_%s_l%d_m%d' % (kn, l, m), CC('rl_conv', l, m, kind), tier=tier, unwind=10, stubs=SPARSE + ONES + RLSTUBS, cap=1500, cap_thorough=5400, mem=24, weight=100 + m,
              desc='%s: %d-bit vector with %d symbolic set positions (values <= 7: one code unit each); result == directly built target, same bits' % (kn, l, m),
